@@ -15,7 +15,7 @@
 From Coq Require Import String List ZArith NArith Bool Permutation.
 From SCC Require Import Base.Sexp Lang.AxSyn Sem.AxSem Model.Linearize Model.LinCheck.
 From SCC Require Import Proof.LinBasics Proof.LinFbs Proof.LinFreshen Proof.LinTyping Proof.LinearizeProof.
-From SCC Require Import Proof.LinExample.
+From SCC Require Import Proof.LinMachine Proof.LinSim Proof.LinExample.
 Import ListNotations.
 Open Scope N_scope.
 
@@ -92,6 +92,23 @@ Theorem C05_linearize_unique : forall p : prog,
           (pdefs p) (pdefs (linearize p)).
 Proof. exact linearize_unique. Qed.
 Print Assumptions C05_linearize_unique.
+
+(* ---- 6. semantics preserved: forward simulation from the named machine (environments are
+   finite maps, the reading of programs before the pass) to the linear machine (environments are
+   lists handled positionally, the reading the back ends implement).  Every run of the input that
+   ends with `exit` or in undefined arithmetic (division by zero, min_int / -1) is reproduced by the
+   linearized program with the same prints in the same order and the same outcome, for every
+   sufficiently large amount of fuel.  All statement forms, closures and the renaming done by
+   Create included.  Not covered: runs of the input that get stuck (not possible for well-typed
+   programs if the named machine is type-sound - not proved here) and divergence. ---- *)
+Theorem C05_linearize_preserves : forall p : prog,
+  prog_ok p = true ->
+  forall (args : list Z) (n : nat) (o : obs),
+    run_named n p args = o ->
+    ((exists z, snd o = OExit z) \/ (exists w, snd o = OUndef w)) ->
+    exists n', forall k, run_linear (n' + k) (linearize p) args = o.
+Proof. exact linearize_preserves_stable. Qed.
+Print Assumptions C05_linearize_preserves.
 
 (* ---- the hypotheses are satisfiable and the conclusions are not vacuous: the program of
    Proof/LinExample.v (closure capturing two of four parameters, switch on a live list, nested
